@@ -185,12 +185,23 @@ func runC18(c *Ctx) {
 				_, bf := p.storesTo(ex)
 				for _, v := range bf["L"] {
 					t := p.TermOf(v)
+					anyElem := func(x *Term, pred func(*Term) bool) bool {
+						if x.Op != "list" {
+							return false
+						}
+						for _, e := range x.Args {
+							if pred(e) {
+								return true
+							}
+						}
+						return false
+					}
 					if t.Has(func(x *Term) bool {
-						return x.Op == "list" && len(x.Args) == 1 && x.Args[0].IsField("Self", isParam(route, 0))
+						return anyElem(x, func(e *Term) bool { return e.IsField("Self", isParam(route, 0)) })
 					}) {
 						hasSelf = true
 					}
-					if t.Has(func(x *Term) bool { return x.Op == "list" && len(x.Args) == 1 && x.Args[0].IsParam(route, 1) }) {
+					if t.Has(func(x *Term) bool { return anyElem(x, func(e *Term) bool { return e.IsParam(route, 1) }) }) {
 						hasSrc = true
 					}
 				}
